@@ -44,7 +44,7 @@ def run(rep: Report, ctx: Any) -> str:
     table = next(iter(returned))
     stores = [s for s in _registry_stores(f, {table})]
     tests = _membership_tests(f, table)
-    rep.floor("member_stores", len(stores), 3)
+    rep.floor("member_stores", len(stores), 2)
     lnames = local_names(f.node)
 
     for st, reg, key, kind in stores:
